@@ -3,12 +3,14 @@ import TeosVerif.Driver.TowerDrv
 import TeosVerif.Driver.SlotsDrv
 import TeosVerif.Driver.ConfigDrv
 import TeosVerif.Driver.LocksDrv
+import TeosVerif.Driver.OutageDrv
 /- The model driver: one operation per input line, one canonical output line per operation. -/
 open Teos Teos.Drv
 
 structure DState where
   ti : TiState := {}
   tw : TwState := {}
+  ou : Teos.Outage.St := {}
 
 def step (st : DState) (line : String) : DState × String :=
   match words line with
@@ -17,6 +19,7 @@ def step (st : DState) (line : String) : DState × String :=
   | "sl" :: rest => (st, slStep rest)
   | "cf" :: rest => (st, cfStep rest)
   | "cc" :: rest => (st, ccStep rest)
+  | "ou" :: rest => let (t, o) := ouStep st.ou rest; ({ st with ou := t }, o)
   | "tw" :: rest => let (t, o) := twStep st.tw rest; ({ st with tw := t }, o)
   | _ => (st, "bad-op")
 
